@@ -291,4 +291,31 @@ def toMsDenotes (g : Graph) (N0 : Q) (samples : Option (List Int)) : Option (Boo
     | _, _ => none
   | none => none
 
+/-! ## What `to_ms` does with ancestry proportions whose sum is only close to one
+
+`to_ms` emits, for the `k`-th ancestor of a deme, the fraction `p_k / sum(p[k:])`: the chain of
+`-es`/`-ej` it produces moves a lineage to ancestor `k` with probability `p_k / sum(p)`, not
+`p_k` — the proportions are renormalised.  (For a single ancestor only `-ej` is emitted: all the
+lineages move, whatever the stored proportion.)  Pulse proportions are emitted as they are. -/
+
+/-- a deme with its ancestry proportions divided by their sum; nothing else changes -/
+def normDeme (d : Deme) : Deme :=
+  { d with proportions := d.proportions.map (fun p => p / qsumS d.proportions) }
+
+/-- the graph with every deme's ancestry proportions `p` replaced by `p / sum p`; demes without
+ancestors, epochs, migrations, pulses (and their proportions), header and name index are
+unchanged -/
+def normalizeProportions (g : Graph) : Graph :=
+  { g with demes := g.demes.map normDeme }
+
+/-- `toMsDenotes` against the normalised graph: the command emitted for `g` compared with the
+demography of `normalizeProportions g` -/
+def toMsDenotesNorm (g : Graph) (N0 : Q) (samples : Option (List Int)) : Option (Bool × Bool × Bool) :=
+  match (toMs g N0 samples).toOption.bind parseCmd with
+  | some c =>
+    match msSemG c N0, Demes.Spec.MsSem.graphSem (inGenerations (normalizeProportions g)) none with
+    | .ok sem, .ok gs => some (popsMatch N0 sem gs, migsMatch sem gs, movesMatch sem gs)
+    | _, _ => none
+  | none => none
+
 end Demes.Spec.C07
